@@ -19,7 +19,7 @@ for m in sorted(rows):
         res = {0: 'silent', 1: 'VIOLATION', 2: 'inconclusive'}.get(r['rc'], str(r['rc']))
         t.append(f"| {m.replace('.diff','')} | {r['check']} | {res} | {key} | {r['seconds']} |")
 seed = subprocess.run(['python3', '/verif/tools/seedtable.py'], capture_output=True, text=True).stdout
-t += ["", "**Changes written by independent sub-agents** (each got only the text of one property and its own worktree; kept under `seeded/<id>-<n>/` with patch, demonstration and `meta.json` after I confirmed in a scratch worktree that the existing suite passes with the change and that the demonstration fails with it and passes without). `r2-` = second round (agents were told which places were already used and asked for harder changes).", "", seed]
+t += ["", "**Changes written by independent sub-agents** (each got only the text of one property and its own worktree; kept under `seeded/<id>-<n>/` with patch, demonstration and `meta.json` after I confirmed in a scratch worktree that the existing suite passes with the change and that the demonstration fails with it and passes without). `r2-` = second round (agents were told which files/functions were already used and asked for harder changes); `r3-`, `r4-` = third and fourth round (nothing but the property text and a list of areas of n2 worth considering, different per round). The columns 'report it / stay silent' are from the day a change was filed (after the strengthening it prompted, see 0.2/0.7); the last column is the own-property quick check re-run against every change with the harness as committed at the end (`tools/seedsweep.py`).", "", seed]
 block5 = "\n".join(t)
 # --- 0.6
 parts = subprocess.run(['/verif/target/release/n2check', 'parts'], capture_output=True, text=True).stdout
